@@ -1,9 +1,125 @@
 import WM.Proto
+import WM.Model.Collect
+import WM.Model.Results
 namespace WM.Drv.C14
-open WM.Proto
+open WM.Proto WM.Proto.SExp WM.Rank WM.Collect
 
-/-- Protocol handler of family `c14` (requests arrive without the family token). -/
+/-! Protocol of family `c14` (key level; documents in collection order).
+
+* `c14 sort limit|none reverse ((doc (key…)) …)` → `((doc (key…)) …)` — `sortingResults`
+* `c14 filter allow|none restrict|none (docs…)` → `(docs…) filtered_count` — `filterDocs`
+* `c14 facet ordered|unordered|count|best ((doc (names…) (key…)) …)` → groups in first-seen order
+* `c14 collapse climit ((doc ckey|none (key…)) …)` → `ok (kept…) ((ckey count)…)` | `err IndexError` — `collapseRun`
+* `c14 page total pagenum pagelen` → `ok total pagecount pagenum offset pagelen` | `err …` — `mkPage`
+* `c14 postarr dc ((docs of term 0…) …)` → the order array — `postingArray`
+* `c14 results extend|filter|upgrade|upgrade-rev|upgrade-extend (((score doc)…) (docs…) total) (…)` →
+  `((score doc)…) (docs, ascending) total` — `WM.Results`
+* `c14 postkey nvalues reverse i` / `c14 postname nvalues reverse k` — `postingKey` / `postingKeyToName`
+-/
+
+def key? (e : SExp) : Option Key := listOf? rat? e
+def showKey (k : Key) : String := showList showRat k
+
+def lookupD {α} (tbl : List (Nat × α)) (dflt : α) (d : Nat) : α :=
+  match tbl.find? (fun p => p.1 == d) with
+  | some p => p.2
+  | none => dflt
+
 def handle : List SExp → String
+  | [.atom "sort", lim, rev, rows] =>
+    let row? : SExp → Option (Nat × Key) := fun e =>
+      match e with
+      | .list [d, k] => do some (← d.nat?, ← key? k)
+      | _ => none
+    match opt? nat? lim, rev.bool?, listOf? row? rows with
+    | some lim, some rev, some rows =>
+      let res := sortingResults (lookupD rows []) lim rev (rows.map (·.1))
+      showList (fun (p : Key × Nat) => s!"({p.2} {showKey p.1})") res
+    | _, _, _ => "bad-op"
+  | [.atom "filter", al, re, docs] =>
+    match opt? natList? al, opt? natList? re, docs.natList? with
+    | some al, some re, some docs =>
+      let r := filterDocs al re docs
+      s!"{showNatList r.1} {r.2}"
+    | _, _, _ => "bad-op"
+  | [.atom "facet", .atom kind, rows] =>
+    let row? : SExp → Option (Nat × List Int × Key) := fun e =>
+      match e with
+      | .list [d, ns, k] => do some (← d.nat?, ← intList? ns, ← key? k)
+      | _ => none
+    match listOf? row? rows with
+    | some rows =>
+      let names := fun d => (lookupD rows ([], []) d).1
+      let skey := fun d => (lookupD rows ([], []) d).2
+      let docs := rows.map (·.1)
+      match kind with
+      | "ordered" => showList (fun (p : Int × List Nat) => s!"({p.1} {showNatList p.2})") (facetOrdered names skey docs)
+      | "unordered" => showList (fun (p : Int × List Nat) => s!"({p.1} {showNatList p.2})") (facetUnordered names docs)
+      | "count" => showList (fun (p : Int × Nat) => s!"({p.1} {p.2})") (facetCount names docs)
+      | "best" => showList (fun (p : Int × (Key × Nat)) => s!"({p.1} {p.2.2})") (facetBest names skey docs)
+      | _ => "bad-op"
+    | none => "bad-op"
+  | [.atom "collapse", cl, rows] =>
+    let row? : SExp → Option (Nat × Option Int × Key) := fun e =>
+      match e with
+      | .list [d, c, k] => do some (← d.nat?, ← opt? int? c, ← key? k)
+      | _ => none
+    match cl.nat?, listOf? row? rows with
+    | some cl, some rows =>
+      let ckey := fun d => (lookupD rows (none, []) d).1
+      let skey := fun d => (lookupD rows (none, []) d).2
+      match collapseRun ckey skey cl (rows.map (·.1)) {} with
+      | .error _ => "err IndexError"
+      | .ok st => s!"ok {showNatList st.kept} {showList (fun (p : Int × Nat) => s!"({p.1} {p.2})") st.counts}"
+    | _, _ => "bad-op"
+  | [.atom "page", t, pn, pl] =>
+    match t.nat?, pn.nat?, pl.nat? with
+    | some t, some pn, some pl =>
+      match mkPage t pn pl with
+      | .error .valueError => "err ValueError"
+      | .error .zeroDivisionError => "err ZeroDivisionError"
+      | .ok p => s!"ok {p.total} {p.pagecount} {p.pagenum} {p.offset} {p.pagelen}"
+    | _, _, _ => "bad-op"
+  | [.atom "results", .atom op, a, b] =>
+    let res? : SExp → Option WM.Results.Res := fun e =>
+      match e with
+      | .list [t, d, n] => do
+        let items ← listOf? (fun x => match x with
+          | .list [s, d] => do some (← s.rat?, ← d.nat?)
+          | _ => none) t
+        some ⟨items, ← d.natList?, ← n.nat?⟩
+      | _ => none
+    match res? a, res? b with
+    | some a, some b =>
+      let r? : Option WM.Results.Res := match op with
+        | "extend" => some (WM.Results.extend a b)
+        | "filter" => some (WM.Results.filter a b)
+        | "upgrade" => some (WM.Results.upgrade a b false)
+        | "upgrade-rev" => some (WM.Results.upgrade a b true)
+        | "upgrade-extend" => some (WM.Results.upgradeAndExtend a b)
+        | _ => none
+      match r? with
+      | some r =>
+        let items := showList (fun (p : Rat × Nat) => s!"({showRat p.1} {p.2})") r.topN
+        s!"{items} {showNatList (r.docs.mergeSort (· ≤ ·))} {r.total}"
+      | none => "bad-op"
+    | _, _ => "bad-op"
+  | [.atom "postarr", dc, terms] =>
+    match dc.nat?, listOf? natList? terms with
+    | some dc, some terms => showNatList (postingArray dc terms)
+    | _, _ => "bad-op"
+  | [.atom "postkey", n, rev, i] =>
+    match n.nat?, rev.bool?, i.nat? with
+    | some n, some rev, some i => toString (postingKey n rev i)
+    | _, _, _ => "bad-op"
+  | [.atom "postname", n, rev, k] =>
+    match n.nat?, rev.bool?, k.int? with
+    | some n, some rev, some k =>
+      match postingKeyToName n rev k with
+      | .error _ => "err IndexError"
+      | .ok none => "none"
+      | .ok (some i) => toString i
+    | _, _, _ => "bad-op"
   | _ => "bad-op"
 
 end WM.Drv.C14
